@@ -205,6 +205,67 @@ def rename(text, specs):
     return "\n".join(out) + "\n"
 
 
+def ligand_hetatm(mol2_text, resname="LIG", chain="L", resseq=900):
+    """HETATM records for the atoms of a MOL2 file (names and coordinates as given),
+    so that the ligand path (--ligand) has hetero atoms to parameterise."""
+    out = []
+    in_atoms = False
+    n = 0
+    for line in mol2_text.splitlines():
+        if line.startswith("@<TRIPOS>"):
+            in_atoms = line.strip() == "@<TRIPOS>ATOM"
+            continue
+        if not in_atoms or not line.strip():
+            continue
+        w = line.split()
+        if len(w) < 6:
+            continue
+        n += 1
+        name = w[1][:4]
+        nm = name if len(name) == 4 else " " + name.ljust(3)
+        x, y, z = float(w[2]), float(w[3]), float(w[4])
+        out.append(f"HETATM{9000 + n:5d} {nm} {resname:>3s} {chain}{resseq:4d}    "
+                   f"{x:8.3f}{y:8.3f}{z:8.3f}  1.00  0.00")
+    return out
+
+
+def add_ligand(text, mol2_name, resname="LIG"):
+    lines = [l for l in text.splitlines() if l.strip() != "END"]
+    lines += ligand_hetatm(load(mol2_name), resname=resname)
+    lines.append("END")
+    return "\n".join(lines) + "\n"
+
+
+def split_chains(text, ids):
+    """Relabel the polymer residues as len(ids) consecutive chains (TER in between);
+    waters and other HETATM groups keep their place at the end and get the last id."""
+    lines = text.splitlines()
+    groups = residue_groups(lines)
+    poly = polymer_groups(groups)
+    if len(poly) < 2 * len(ids):
+        return text
+    per = len(poly) // len(ids)
+    owner = {}
+    for i, g in enumerate(poly):
+        cid = ids[min(i // per, len(ids) - 1)]
+        for l in g["lines"]:
+            owner[id(l)] = cid
+    out = []
+    prev = None
+    for l in lines:
+        if _is_atom(l):
+            cid = owner.get(id(l))
+            if cid is None:
+                cid = ids[-1] if l[21] != " " else " "
+            if id(l) in owner and prev is not None and cid != prev:
+                out.append("TER")
+            if id(l) in owner:
+                prev = cid
+            l = l[:21] + cid + l[22:]
+        out.append(l)
+    return "\n".join(out) + "\n"
+
+
 HTML_PAGE = (
     "<!DOCTYPE html>\n<html><head><title>503 Service Unavailable</title></head>\n"
     "<body><h1>Service Unavailable</h1>\n<p>The server is temporarily unable to service "
@@ -237,6 +298,16 @@ def content_fault(data: bytes, spec) -> bytes:
         lines = data.split(b"\n")
         at = int(spec["at"]) % max(1, len(lines))
         return b"\n".join(lines[:at] + [b""] + lines[at:])
+    if kind == "field":
+        # overwrite fixed columns of the n-th coordinate record (a garbled numeric field)
+        lines = data.split(b"\n")
+        idx = [i for i, l in enumerate(lines) if l[:6] in (b"ATOM  ", b"HETATM")]
+        if idx:
+            i = idx[int(spec["record"]) % len(idx)]
+            a, b = spec["cols"]
+            l = lines[i].ljust(b)
+            lines[i] = l[:a] + spec["text"].encode().ljust(b - a)[: b - a] + l[b:]
+        return b"\n".join(lines)
     if kind == "binary":
         return bytes((i * 37 + 11) & 0xFF for i in range(min(len(data), 4096)))
     raise ValueError(kind)
@@ -253,6 +324,10 @@ def structure_text(cfg):
         text = damage(text, cfg["damage"])
     if cfg.get("rename"):
         text = rename(text, cfg["rename"])
+    if cfg.get("chains"):
+        text = split_chains(text, cfg["chains"])
+    if cfg.get("lig_het"):
+        text = add_ligand(text, cfg["lig_het"], cfg.get("lig_resname", "LIG"))
     if cfg.get("rigid"):
         text = rigid(text, cfg["rigid"].get("rot"), cfg["rigid"].get("shift"))
     return text
